@@ -3,6 +3,8 @@ The refinement theorem on the fragment: the compiled flow and the reference flow
 fragment have the same index-resolved abstraction (category names not observed).
 -/
 import Rpft.Lemmas.CoreSwitch
+import Rpft.Lemmas.CoreImplAbs
+import Rpft.Lemmas.FlowSplit
 set_option linter.unusedSimpArgs false
 set_option linter.unusedVariables false
 namespace Rpft.CoreSheet
@@ -15,9 +17,15 @@ theorem noIdsL_fragment : ∀ (rows : List CRow), (∀ c ∈ rows, rowOk c = tru
   | nil => intro _; rfl
   | cons c l ih =>
     intro h
-    have hc := rowFacts c (h c (by simp))
+    have hu : c.row.nodeUuid = [] := by
+      have := h c (by simp)
+      simp only [rowOk, Bool.or_eq_true] at this
+      rcases this with (h1 | h1) | h1
+      · exact (rowFacts c h1).nouid
+      · simp only [exitRow, Bool.and_eq_true, List.isEmpty_iff] at h1; exact h1.2
+      · simp only [gotoRow, Bool.and_eq_true, List.isEmpty_iff] at h1; exact h1.2
     simp only [List.map_cons, noIdsL, toEvent, Event.noIds, Bool.and_eq_true]
-    exact ⟨by rw [hc.nouid]; rfl, ih (fun c' hc' => h c' (by simp [hc']))⟩
+    exact ⟨by rw [hu]; rfl, ih (fun c' hc' => h c' (by simp [hc']))⟩
 
 theorem pass1_state {rows : List RRow} {out : List OutEdge} (h : pass1 rows = .ok out) :
     ∃ st : P1, (rows.zipIdx 0).foldlM (fun st (p : RRow × Nat) => pass1Row st p.2 p.1) {} = .ok st ∧
@@ -33,25 +41,55 @@ theorem pass1_state {rows : List RRow} {out : List OutEdge} (h : pass1 rows = .o
 theorem good_of_fragment (rows : List CRow) (outE : List OutEdge) (hf : inFragment rows = true)
     (hp : pass1 (rows.map toRRow) = .ok outE) : (∀ c ∈ rows, rowOk c = true) ∧ Good rows outE := by
   simp only [inFragment, Bool.and_eq_true, List.all_eq_true, hp] at hf
-  obtain ⟨h1, h2, h3⟩ := hf
-  refine ⟨h1, ⟨h2, ?_⟩⟩
-  intro j c hc
-  have hj : j < rows.length := (List.getElem?_eq_some_iff.mp hc).1
-  simp only [distinctTests, List.all_eq_true, List.mem_range] at h3
-  have := h3 j hj
-  rw [hc] at this
-  simpa using this
+  obtain ⟨h1, ⟨⟨h2, h3⟩, h4⟩, h5⟩ := hf
+  refine ⟨h1, ⟨h2, ?_, ?_, ?_⟩⟩
+  · intro j c hc hk
+    have hj : j < rows.length := (List.getElem?_eq_some_iff.mp hc).1
+    simp only [distinctTests, List.all_eq_true, List.mem_range] at h3
+    have := h3 j hj
+    rw [hc] at this
+    have hmem : (switchTypes.contains c.row.type || decide (kindOf c.row.type = .action)) = true := by
+      rcases hk with hk | hk
+      · have : c.row.type ∈ switchTypes := by
+          rcases switch_type_of_kind hk with h | h | h <;> rw [h] <;> decide
+        rw [List.contains_iff_mem.mpr this]; rfl
+      · rw [decide_eq_true hk, Bool.or_true]
+    have this2 : (!(switchTypes.contains c.row.type || decide (kindOf c.row.type = .action)) ||
+        decide (((testsOf (kindOf c.row.type) (outE.filter (·.src = j))).map
+          (fun e => refTest (kindOf c.row.type) e.cond)).Nodup)) = true := this
+    rw [hmem] at this2
+    simpa using this2
+  · intro j c hc hk e he
+    have hj : j < rows.length := (List.getElem?_eq_some_iff.mp hc).1
+    simp only [sameVars, List.all_eq_true, List.mem_range] at h4
+    have := h4 j hj
+    rw [hc] at this
+    have this2 : (!decide (kindOf c.row.type = .action) ||
+        ((outE.filter (·.src = j)).filter (fun e => !e.cond.blank)).all
+          (fun e => decide (e.cond.var = implVar (outE.filter (·.src = j))))) = true := this
+    simp only [hk, decide_true, Bool.not_true, Bool.false_or, List.all_eq_true, decide_eq_true_eq] at this2
+    exact this2 e he
+  · intro j c hc hk
+    have hj : j < rows.length := (List.getElem?_eq_some_iff.mp hc).1
+    simp only [freshNames, List.all_eq_true, List.mem_range] at h5
+    have := h5 j hj
+    rw [hc] at this
+    have hmem : (switchTypes.contains c.row.type || decide (kindOf c.row.type = .action)) = true := by
+      rcases hk with hk | hk
+      · have : c.row.type ∈ switchTypes := by
+          rcases switch_type_of_kind hk with h | h | h <;> rw [h] <;> decide
+        rw [List.contains_iff_mem.mpr this]; rfl
+      · rw [decide_eq_true hk, Bool.or_true]
+    have this2 : (!(switchTypes.contains c.row.type || decide (kindOf c.row.type = .action)) ||
+        namesOk (kindOf c.row.type) (timeoutOf c.row) [] (testsOf (kindOf c.row.type) (outE.filter (·.src = j)))) = true := this
+    rw [hmem] at this2
+    simpa using this2
 
 theorem forall2_map_eq {α β γ} {R : α → β → Prop} {f : α → γ} {g : β → γ} {l1 : List α} {l2 : List β}
     (h : List.Forall₂ R l1 l2) (hfg : ∀ a b, R a b → f a = g b) : l1.map f = l2.map g := by
   induction h with
   | nil => rfl
   | cons hab _ ih => simp [hfg _ _ hab, ih]
-
-theorem lastTgt_eq (es : List OutEdge) (p : OutEdge → Bool) :
-    lastTgt es p = (((es.filter p).getLast?).map (·.tgt)).bind tgtDest := by
-  unfold lastTgt
-  cases (es.filter p).getLast? <;> rfl
 
 theorem type_of_wait {t : Str} (h : kindOf t = .wait) : t = "wait_for_response".toList := by
   rcases switch_type_of_kind (.inl h) with h1 | h1 | h1
@@ -63,23 +101,317 @@ theorem type_not_wait {t : Str} (h : kindOf t = .splitValue ∨ kindOf t = .spli
     t ≠ "wait_for_response".toList := by
   intro e; rw [e, kindOf_wait] at h; rcases h with h | h <;> cases h
 
+theorem forall2_map_eq_mem {α β γ} {R : α → β → Prop} {f : α → γ} {g : β → γ} {l1 : List α} {l2 : List β}
+    (h : List.Forall₂ R l1 l2) (hfg : ∀ a b, b ∈ l2 → R a b → f a = g b) : l1.map f = l2.map g := by
+  induction h with
+  | nil => rfl
+  | cons hab _ ih =>
+    simp only [List.map_cons]
+    rw [hfg _ _ (by simp) hab, ih (fun a b hb => hfg a b (by simp [hb]))]
+
+/-- one node: the reference node of row `j` and the compiled node have the same actions and the same
+decision, and corresponding destinations -/
+theorem node_abs_rel (rnf : Bool) (F r : Flow) (M : Maps) (ns : Array NodeM) (j : Nat) (n : NodeM) (c : CRow)
+    (es : List OutEdge) (hsim : NodeSim M ns n c es) (hfc : nodeRowOk c = true)
+    (rows : List CRow) (hcj : rows[j]? = some c) (hok : ∀ e ∈ es, edgeOk rows e = true ∧ e.src = j)
+    (hfn0 : n.fids.Nodup) :
+    AbsRel (DR F r M ns es) (absNode ⟨false, rnf⟩ r (mkNode j (toRRow c) es)) (absNode ⟨false, rnf⟩ F (renderNode n)) := by
+  have hlast : ∀ (l : List OutEdge), (∀ e ∈ l, e ∈ es) → ∀ k, (l.getLast?).map (·.tgt) = some (Target.row k) →
+      ∃ e ∈ es, e.tgt = Target.row k := by
+    intro l hl k hk
+    cases hg : l.getLast? with
+    | none => rw [hg] at hk; cases hk
+    | some e =>
+      rw [hg] at hk
+      simp only [Option.map_some, Option.some.injEq] at hk
+      exact ⟨e, hl e (List.mem_of_getLast? hg), hk⟩
+  have hfil : ∀ (p : OutEdge → Bool) (l : List OutEdge), (∀ e ∈ l, e ∈ es) → ∀ e ∈ l.filter p, e ∈ es :=
+    fun p l hl e he => hl e (List.mem_filter.mp he).1
+  have hall : ∀ e ∈ es, e ∈ es := fun e he => he
+  cases hsim with
+  | plain hk hp =>
+    -- an action row: all its out-edges are unconditional
+    have hbl : ∀ e ∈ es, e.cond.blank = true := hp.blank
+    have hact : (toRRow c).act = c.row.action := by
+      simp only [nodeRowOk, Bool.or_eq_true] at hfc
+      rcases hfc with ((h1 | h1) | h1) | h1
+      · simp only [plainActionRow, Bool.and_eq_true, decide_eq_true_eq] at h1
+        exact h1.2.symm
+      · simp only [switchRow, Bool.and_eq_true] at h1
+        have := switch_type h1.1.1.1
+        rcases kindOf_switch this with h2 | h2 | h2 <;> rw [hk] at h2 <;> cases h2
+      · simp only [fixedRow, Bool.and_eq_true] at h1
+        have := fixed_type h1.1.1.1
+        rcases kindOf_fixed this with h2 | h2 | h2 <;> rw [hk] at h2 <;> cases h2
+      · simp only [randomRow, Bool.and_eq_true, decide_eq_true_eq] at h1
+        have h2 := kindOf_random; rw [← h1.1.1.1, hk] at h2; cases h2
+    rw [mkNode_plain j (toRRow c) (es) hk hbl, absNode_plain_ref,
+      absNode_plain_cmp _ _ n c.row.action hp.router hp.acts, hact]
+    refine ⟨rfl, rfl, List.Forall₂.cons ⟨n.dexitDest, _, hp.dest, hlast es hall, ?_, rfl⟩ List.Forall₂.nil⟩
+    cases (es).getLast? <;> rfl
+  | sw rr hk hp =>
+    have hact : (toRRow c).act = none := by
+      simp only [nodeRowOk, Bool.or_eq_true] at hfc
+      rcases hfc with ((h1 | h1) | h1) | h1
+      · simp only [plainActionRow, Bool.and_eq_true, Bool.not_eq_true'] at h1
+        have := kindOf_action h1.1.1.1
+        rcases hk with h2 | h2 | h2 <;> rw [this] at h2 <;> cases h2
+      · simp only [switchRow, Bool.and_eq_true, Option.isNone_iff_eq_none] at h1
+        exact h1.2
+      · simp only [fixedRow, Bool.and_eq_true] at h1
+        have := fixed_type h1.1.1.1
+        rcases kindOf_fixed this with h3 | h3 | h3 <;> rcases hk with h2 | h2 | h2 <;> rw [h3] at h2 <;> cases h2
+      · simp only [randomRow, Bool.and_eq_true, Option.isNone_iff_eq_none] at h1
+        exact h1.2
+    -- identifiers of the compiled router are pairwise different
+    have hfn := hfn0
+    have hrids : rr.ids.Nodup := by
+      unfold NodeM.fids NodeM.innerIds NodeM.tailIds at hfn
+      rw [hp.router] at hfn
+      exact (List.nodup_append.mp (List.nodup_append.mp hfn).2.1).2.1
+    have hex : (rr.allCats.map (·.exitUid)).Nodup := by
+      unfold SwitchR.ids at hrids; exact (List.nodup_append.mp hrids).1
+    have hcu : (rr.allCats.map (·.uid)).Nodup := by
+      unfold SwitchR.ids at hrids
+      exact (List.nodup_append.mp (List.nodup_append.mp hrids).2.1).1
+    rw [mkNode_switch j (toRRow c) (es) hk hact, absNode_mkSwitch,
+      absNode_sw rnf _ n rr hp.router hp.acts hcu hex hp.casecat hp.nrSome]
+    -- compare field by field
+    have htests : (rr.cases.map renderCase).map (fun k => (k.type, testArgs k)) =
+        (refTests (toRRow c).kind (es)).map (fun t =>
+          (t.1, if t.1 = "has_group".toList then t.2.1.drop 1 else t.2.1)) := by
+      have e1 : (rr.cases.map renderCase).map (fun k => (k.type, testArgs k)) =
+          (rr.cases.map (fun k => (k.type, k.args.map (·.getD [])))).map
+            (fun (p : Str × List Str) => (p.1, if p.1 = "has_group".toList then p.2.drop 1 else p.2)) := by
+        rw [List.map_map, List.map_map]
+        exact List.map_congr_left (fun k _ => rfl)
+      rw [e1, hp.cases, List.map_map]
+      unfold refTests
+      rw [List.map_map]
+      exact List.map_congr_left (fun e _ => rfl)
+    have hwait : (renderWait rr).map (fun o => o.map (·.1)) =
+        (refWait (toRRow c) (es)).map (fun o => o.map (·.1)) := by
+      unfold refWait renderWait
+      rcases hk with h1 | h1
+      · -- a wait row
+        have ht := type_of_wait h1
+        have hw : rr.wait = some (timeoutOf c.row) := by rw [hp.wait]; unfold waitOf; rw [if_pos ht]
+        have hk' : (toRRow c).kind = .wait := h1
+        have hto : (toRRow c).timeout = timeoutOf c.row := rfl
+        rw [if_pos hk', hto, hw]
+        cases hto2 : timeoutOf c.row with
+        | zero => simp
+        | succ m =>
+          have : rr.noResp.isSome = true := hp.nrSome.mpr ⟨m, by rw [hw, hto2]⟩
+          cases hnn : rr.noResp with
+          | none => rw [hnn] at this; cases this
+          | some nr => simp
+      · have ht := type_not_wait h1
+        have hw : rr.wait = none := by rw [hp.wait]; unfold waitOf; rw [if_neg ht]
+        have hk' : ¬ ((toRRow c).kind = .wait) := by
+          show ¬ (kindOf c.row.type = .wait)
+          rcases h1 with h1 | h1 <;> rw [h1] <;> decide
+        rw [if_neg hk', hw]
+        rfl
+    have hdests : List.Forall₂ (DR F r M ns es)
+        (((refTests (toRRow c).kind (es)).map (fun t => destIdx r t.2.2)) ++
+          [destIdx r (lastTgt ((es).filter (·.cond.blank)) (fun _ => true))] ++
+          (match refWait (toRRow c) (es) with
+           | some (some (_, td)) => [destIdx r td]
+           | _ => []))
+        (rr.allCats.map (fun cat => destIdx F (renderDest cat.dest))) := by
+      simp only [SwitchR.allCats, List.map_append, List.map_cons, List.map_nil]
+      refine List.rel_append (List.rel_append ?_ ?_) ?_
+      · -- the categories of the tests
+        unfold refTests
+        rw [List.map_map]
+        refine forall2_flip_map hp.catd ?_
+        intro cat e he hd
+        refine ⟨cat.dest, some e.tgt, hd, ?_, rfl, rfl⟩
+        intro k hk
+        simp only [Option.some.injEq] at hk
+        have : e ∈ es := by unfold testsOf at he; exact hfil _ _ (hfil _ _ hall) e he
+        exact ⟨e, this, hk⟩
+      · -- the default category
+        refine List.Forall₂.cons ⟨rr.dflt.dest, _, hp.dflt, hlast _ (hfil _ _ hall), ?_, rfl⟩ List.Forall₂.nil
+        rw [lastTgt_eq, List.filter_true]
+      · -- the timeout category
+        unfold refWait
+        rcases hk with h1 | h1
+        · have ht := type_of_wait h1
+          have hw : rr.wait = some (timeoutOf c.row) := by rw [hp.wait]; unfold waitOf; rw [if_pos ht]
+          have hk' : (toRRow c).kind = .wait := h1
+          have hto : (toRRow c).timeout = timeoutOf c.row := rfl
+          rw [if_pos hk', hto]
+          cases hto2 : timeoutOf c.row with
+          | zero =>
+            have : rr.noResp = none := by
+              cases hnn : rr.noResp with
+              | none => rfl
+              | some nr =>
+                obtain ⟨m, hm⟩ := hp.nrSome.mp (by simp [hnn])
+                rw [hw, hto2] at hm; cases hm
+            simp only [this, Option.toList, List.map_nil, if_true]
+            exact List.Forall₂.nil
+          | succ m =>
+            have : rr.noResp.isSome = true := hp.nrSome.mpr ⟨m, by rw [hw, hto2]⟩
+            cases hnn : rr.noResp with
+            | none => rw [hnn] at this; cases this
+            | some nr =>
+              simp only [Option.toList, List.map_cons, List.map_nil, Nat.succ_ne_zero, if_false]
+              refine List.Forall₂.cons ⟨nr.dest, _, hp.nr nr hnn, hlast _ (hfil _ _ (hfil _ _ hall)), ?_, rfl⟩ List.Forall₂.nil
+              rw [lastTgt_eq]
+        · have ht := type_not_wait h1
+          have hw : rr.wait = none := by rw [hp.wait]; unfold waitOf; rw [if_neg ht]
+          have hk' : ¬ ((toRRow c).kind = .wait) := by
+            show ¬ (kindOf c.row.type = .wait)
+            rcases h1 with h1 | h1 <;> rw [h1] <;> decide
+          rw [if_neg hk']
+          have : rr.noResp = none := by
+            cases hnn : rr.noResp with
+            | none => rfl
+            | some nr =>
+              obtain ⟨m, hm⟩ := hp.nrSome.mp (by simp [hnn])
+              rw [hw] at hm; cases hm
+          simp only [this, Option.toList, List.map_nil]
+          exact List.Forall₂.nil
+    have hop : rr.operand = (toRRow c).operand := hp.operand
+    have hrn' : rr.resultName = some (toRRow c).saveName := hp.rname
+    refine ⟨rfl, ?_, hdests⟩
+    simp only
+    rw [htests, hwait, hop, hrn']
+  | fix rr sc hk hp =>
+    have hact : (toRRow c).act = some (c.row.ownAction.getD []) := by
+      simp only [nodeRowOk, Bool.or_eq_true] at hfc
+      rcases hfc with ((h1 | h1) | h1) | h1
+      · simp only [plainActionRow, Bool.and_eq_true, Bool.not_eq_true'] at h1
+        have := kindOf_action h1.1.1.1
+        rcases hk with h2 | h2 | h2 <;> rw [this] at h2 <;> cases h2
+      · simp only [switchRow, Bool.and_eq_true] at h1
+        have := switch_type h1.1.1.1
+        rcases kindOf_switch this with h3 | h3 | h3 <;> rcases hk with h2 | h2 | h2 <;> rw [h3] at h2 <;> cases h2
+      · simp only [fixedRow, Bool.and_eq_true, decide_eq_true_eq] at h1
+        exact h1.2
+      · simp only [randomRow, Bool.and_eq_true, decide_eq_true_eq] at h1
+        have h3 := kindOf_random; rw [← h1.1.1.1] at h3
+        rcases hk with h2 | h2 | h2 <;> rw [h3] at h2 <;> cases h2
+    have hk' : isFixedKind (toRRow c).kind := hk
+    rw [absNode_fix_ref rnf r j (toRRow c) es hk', absNode_fix_cmp rnf F M ns n c es rr sc hk hp hfn0, hact]
+    refine ⟨rfl, rfl, ?_⟩
+    unfold fixAbs
+    simp only
+    refine List.Forall₂.cons ⟨sc.dest, _, hp.succ, hlast _ (hfil _ _ hall), ?_, rfl⟩ (forall2_replicate
+      ⟨rr.dflt.dest, _, hp.dflt, hlast _ (hfil _ _ hall), ?_, rfl⟩ _)
+    · rw [lastTgt_eq]; rfl
+    · rw [lastTgt_eq]; rfl
+  | rnd rr hk hp =>
+    have hact : (toRRow c).act = none := by
+      simp only [nodeRowOk, Bool.or_eq_true] at hfc
+      rcases hfc with ((h1 | h1) | h1) | h1
+      · simp only [plainActionRow, Bool.and_eq_true, Bool.not_eq_true'] at h1
+        have := kindOf_action h1.1.1.1
+        rw [this] at hk; cases hk
+      · simp only [switchRow, Bool.and_eq_true, Option.isNone_iff_eq_none] at h1
+        exact h1.2
+      · simp only [fixedRow, Bool.and_eq_true] at h1
+        have := fixed_type h1.1.1.1
+        rcases kindOf_fixed this with h3 | h3 | h3 <;> rw [h3] at hk <;> cases hk
+      · simp only [randomRow, Bool.and_eq_true, Option.isNone_iff_eq_none] at h1
+        exact h1.2
+    have hk' : (toRRow c).kind = .splitRandom := hk
+    rw [absNode_rnd_ref rnf r j (toRRow c) es hk' hact, absNode_rnd_cmp rnf F n rr c.row.saveName hp.router hp.acts hp.rname hfn0]
+    refine ⟨rfl, rfl, ?_⟩
+    unfold rndAbs
+    simp only
+    refine forall2_flip_map hp.rel ?_
+    intro cat b hb hd
+    refine ⟨cat.dest, some b.2, hd.1, ?_, rfl, rfl⟩
+    intro k hk2
+    simp only [Option.some.injEq] at hk2
+    obtain ⟨e, he, het⟩ := buckets_tgt es b hb
+    exact ⟨e, he, by rw [het]; exact hk2⟩
+
+theorem zipIdx_filterMap {α β} (F : α → Nat → Option β) : ∀ (l : List α) (k : Nat),
+    (l.zipIdx k).filterMap (fun p => F p.1 p.2) =
+      (List.range' k l.length).filterMap (fun j => (l[j - k]?).bind (fun x => F x j)) := by
+  intro l
+  induction l with
+  | nil => intro k; simp
+  | cons a l ih =>
+    intro k
+    simp only [List.zipIdx_cons, List.filterMap_cons, List.length_cons, List.range'_succ, Nat.sub_self,
+      List.getElem?_cons_zero, Option.bind_some]
+    rw [ih (k + 1)]
+    have : (List.range' (k + 1) l.length).filterMap (fun j => ((a :: l)[j - k]?).bind (fun x => F x j)) =
+        (List.range' (k + 1) l.length).filterMap (fun j => (l[j - (k + 1)]?).bind (fun x => F x j)) := by
+      apply List.filterMap_congr
+      intro j hj
+      have hjk : k + 1 ≤ j := (List.mem_range'_1.mp hj).1
+      have : j - k = (j - (k + 1)) + 1 := by omega
+      rw [this, List.getElem?_cons_succ]
+    rw [this]
+
+theorem filterMap_length_congr {α β γ} (L : List α) (f : α → Option β) (g : α → Option γ)
+    (h : ∀ x ∈ L, (f x).isSome = (g x).isSome) : (L.filterMap f).length = (L.filterMap g).length := by
+  induction L with
+  | nil => rfl
+  | cons x L ih =>
+    have hx := h x (by simp)
+    have ih' := ih (fun y hy => h y (by simp [hy]))
+    simp only [List.filterMap_cons]
+    cases hf : f x <;> cases hg : g x <;> simp [hf, hg] at hx ⊢ <;> exact ih'
+
 /-- **the compiled flow and the reference flow of a sheet of the fragment have the same
 index-resolved abstraction** -/
-theorem fragment_abs (rnf : Bool) (testTypes : List Str) (rows : List CRow) (out : Out) (r : Flow)
+theorem filterMap_flatMap' {α β γ} (f : α → List β) (g : β → Option γ) (L : List α) :
+    (L.flatMap f).filterMap g = L.flatMap (fun x => (f x).filterMap g) := by
+  induction L with
+  | nil => rfl
+  | cons x L ih => simp [List.flatMap_cons, List.filterMap_append, ih]
+
+theorem map_flatMap' {α β γ} (f : α → List β) (g : β → γ) (L : List α) :
+    (L.flatMap f).map g = L.flatMap (fun x => (f x).map g) := by
+  induction L with
+  | nil => rfl
+  | cons x L ih => simp [List.flatMap_cons, ih]
+
+/-- positions in a list built by `flatMap` -/
+theorem flatMap_pos {α β} (f : α → List β) (L : List α) (t : Nat) (x : α) (hx : L[t]? = some x) (i : Nat)
+    (hi : i < (f x).length) : (L.flatMap f)[((L.take t).flatMap f).length + i]? = (f x)[i]? := by
+  have hL : L = L.take t ++ x :: L.drop (t + 1) := by
+    have := List.getElem?_eq_some_iff.mp hx
+    rw [← this.2]
+    simp
+  have : L.flatMap f = (L.take t).flatMap f ++ (f x ++ (L.drop (t + 1)).flatMap f) := by
+    conv => lhs; rw [hL]
+    rw [List.flatMap_append, List.flatMap_cons]
+  rw [this, List.getElem?_append_right (Nat.le_add_right _ _), Nat.add_sub_cancel_left,
+    List.getElem?_append_left hi]
+
+theorem flatMap_nil_of {α β} (f : α → List β) (L : List α) (h : ∀ x ∈ L, f x = []) : L.flatMap f = [] := by
+  induction L with
+  | nil => rfl
+  | cons x L ih => simp [List.flatMap_cons, h x (by simp), ih (fun y hy => h y (by simp [hy]))]
+
+theorem filterMap_nil_of {α β} (f : α → Option β) (L : List α) (h : ∀ x ∈ L, f x = none) : L.filterMap f = [] := by
+  induction L with
+  | nil => rfl
+  | cons x L ih => simp [List.filterMap_cons, h x (by simp), ih (fun y hy => h y (by simp [hy]))]
+
+/-- **the refinement theorem on the fragment, at the level of traces** -/
+theorem fragment_trace (rnf : Bool) (testTypes : List Str) (rows : List CRow) (out : Out) (r : Flow)
     (hf : inFragment rows = true)
     (hc : compile RefFlow.noArgsTests testTypes (rows.map toEvent) = .ok out)
-    (hr : refFlow (rows.map toRRow) = .ok r) :
-    absFlow ⟨false, rnf⟩ r = absFlow ⟨false, rnf⟩ (renderOut out) := by
+    (hr : refFlow (rows.map toRRow) = .ok r) (env : Nat → Nat) (len : Nat) :
+    trace ⟨false, rnf⟩ r env len = trace ⟨false, rnf⟩ (renderOut out) env len := by
   obtain ⟨s, hrun, hl, ho⟩ := compile_ok hc
   obtain ⟨outE, hp1, hrn⟩ := refFlow_nodes _ _ hr
   obtain ⟨hfr, hgood⟩ := good_of_fragment rows outE hf hp1
   obtain ⟨st, hfold, hoe⟩ := pass1_state hp1
-  have hrel := wp_of_run (rows_sim rows outE hgood rows 0 (fun i c hi => by simpa using hi) hfr _ {} st
-    (rel_init rows _ testTypes rfl) hfold (by rw [hoe])) hrun
+  obtain ⟨M, hrel⟩ := wp_of_run (rows_sim rows outE hgood rows 0 (fun i c hi => by simpa using hi) hfr
+    ⟨fun _ => 0, fun _ => none⟩ _ {} st (rel_init rows _ (fun _ => rfl) _ testTypes rfl) hfold (by rw [hoe])) hrun
   simp only [Nat.zero_add] at hrel
-  -- the compiled nodes
-  have hon : out.nodes = s.nodes.toList := by rw [ho]; exact out_nodes_rel hrel
-  -- their identifiers are pairwise different
+  -- identifiers of the compiled flow are pairwise different
   have hids := noIdsL_fragment rows hfr
   have a := final_ainv ⟨True, True⟩ ⟨fun _ => okIdsL_of_noIdsL _ hids, fun _ => hids⟩ hrun
   have hI := a.ids trivial
@@ -87,201 +419,233 @@ theorem fragment_abs (rnf : Bool) (testTypes : List Str) (rows : List CRow) (out
     have := uids_nodup_of_invented hI (a.inv trivial) _ (emit_nodup (final_binv hrun) hl)
     rw [← ho] at this
     simpa [renderOut, List.map_map, Function.comp_def, renderNode] using this
-  -- the reference nodes
-  have hkinds : ∀ rr ∈ rows.map toRRow, rr.kind.isNode = true := by
-    intro rr hrr
-    simp only [List.mem_map] at hrr
-    obtain ⟨c, hc', rfl⟩ := hrr
-    rcases (rowFacts c (hfr c hc')).kind with h | h | h | h <;>
-      (show (kindOf c.row.type).isNode = true; rw [h]; rfl)
   have hRU : (r.nodes.map (·.uuid)).Nodup := (refFlow_closed _ _ hr).1
-  -- a destination of the compiled flow and the target it stands for resolve to the same index
-  have dest_match : ∀ (d : Dest) (t : Option Target), DestIs s.nodes d t →
-      destIdx (renderOut out) (renderDest d) = destIdx r (t.bind tgtDest) := by
-    intro d t hd
+  -- the reference nodes, per row
+  obtain ⟨fR, hfR⟩ : ∃ fR : Nat → Option Node, fR = fun j => (rows[j]?).bind (fun c =>
+      if isNodeRow c then some (mkNode j (toRRow c) (outE.filter (·.src = j))) else none) := ⟨_, rfl⟩
+  have hrn2 : r.nodes = (List.range rows.length).filterMap fR := by
+    rw [hrn, hfR]
+    unfold refNodes
+    have := zipIdx_filterMap (fun (rr : RRow) (k : Nat) =>
+      if rr.kind.isNode then some (mkNode k rr (outE.filter (·.src = k))) else none) (rows.map toRRow) 0
+    simp only [List.length_map, Nat.sub_zero] at this
+    rw [← List.range_eq_range'] at this
+    rw [this]
+    apply List.filterMap_congr
+    intro j _
+    simp only [List.getElem?_map]
+    cases rows[j]? <;> rfl
+  -- the compiled nodes, per row
+  obtain ⟨gC, hgC⟩ : ∃ gC : Nat → List Node, gC = fun j =>
+      ((nodeIdxs rows M j).filterMap (fun i => s.nodes[i]?)).map renderNode := ⟨_, rfl⟩
+  have hFn : (renderOut out).nodes = (List.range rows.length).flatMap gC := by
+    simp only [renderOut, ho, emit_rel hrel, filterMap_flatMap', map_flatMap', hgC]
+  generalize renderOut out = F at hU hFn ⊢
+  -- the correspondence: row `j` ↦ index of its reference node, index of its compiled node
+  obtain ⟨V, hV⟩ : ∃ V : Nat → Prop, V = fun j => ∃ c, rows[j]? = some c ∧ isNodeRow c = true := ⟨_, rfl⟩
+  obtain ⟨ia, hia⟩ : ∃ ia : Nat → Nat, ia = fun j => (((List.range rows.length).take j).filterMap fR).length := ⟨_, rfl⟩
+  obtain ⟨ib, hib⟩ : ∃ ib : Nat → Nat, ib = fun j => (((List.range rows.length).take j).flatMap gC).length := ⟨_, rfl⟩
+  obtain ⟨ir, hir⟩ : ∃ ir : Nat → Option Nat, ir = fun j => (M.rOf j).map (fun _ => ib j + 1) := ⟨_, rfl⟩
+  have hsub : ∀ j, ∀ e ∈ outOf st j, e ∈ outE ∧ e.src = j := by
+    intro j e he
+    have := List.mem_filter.mp he
+    exact ⟨by rw [hoe]; exact this.1, by simpa using this.2⟩
+  have hes : ∀ j, outE.filter (·.src = j) = outOf st j := by intro j; rw [hoe]; rfl
+  -- what the rows give
+  have hrowR : ∀ (j : Nat) (c : CRow), rows[j]? = some c → isNodeRow c = true →
+      r.nodes[ia j]? = some (mkNode j (toRRow c) (outOf st j)) := by
+    intro j c hcj hn
+    have hj : j < rows.length := (List.getElem?_eq_some_iff.mp hcj).1
+    have hrt : (List.range rows.length)[j]? = some j := by simp [hj]
+    have hfr' : fR j = some (mkNode j (toRRow c) (outOf st j)) := by rw [hfR]; simp [hcj, hn, hes]
+    rw [hrn2, hia]
+    exact filterMap_pos fR (List.range rows.length) j j _ hrt hfr'
+  have hrowC : ∀ (j : Nat) (c : CRow), rows[j]? = some c → isNodeRow c = true →
+      ∃ n, s.nodes[M.nOf j]? = some n ∧ RowSim M s.nodes n c (outOf st j) (M.rOf j) ∧
+        F.nodes[ib j]? = some (renderNode n) ∧
+        ∀ i' n', M.rOf j = some i' → s.nodes[i']? = some n' → F.nodes[ib j + 1]? = some (renderNode n') := by
+    intro j c hcj hn
+    have hj : j < rows.length := (List.getElem?_eq_some_iff.mp hcj).1
+    have hrt : (List.range rows.length)[j]? = some j := by simp [hj]
+    obtain ⟨n, hn', hsim⟩ := hrel.node j c ⟨.inl hj, hcj, hn⟩
+    refine ⟨n, hn', hsim, ?_, ?_⟩
+    · have h0 : 0 < (gC j).length := by rw [hgC]; simp [nodeIdxs, hcj, hn, idxs, hn']
+      have := flatMap_pos gC (List.range rows.length) j j hrt 0 h0
+      rw [hFn, hib]
+      simp only [Nat.add_zero] at this
+      rw [this, hgC]
+      simp [nodeIdxs, hcj, hn, idxs, hn']
+    · intro i' n' hro hn''
+      have h1 : 1 < (gC j).length := by rw [hgC]; simp [nodeIdxs, hcj, hn, idxs, hn', hro, hn'']
+      have := flatMap_pos gC (List.range rows.length) j j hrt 1 h1
+      rw [hFn, hib]
+      rw [this, hgC]
+      simp [nodeIdxs, hcj, hn, idxs, hn', hro, hn'']
+  -- corresponding destinations resolve to corresponding indices
+  have htgts := pass1_targets _ _ hp1
+  have dr_to_drel : ∀ (es : List OutEdge) (x y : Option (Option Nat)), (∀ e ∈ es, e ∈ outE) →
+      DR F r M s.nodes es x y → DRel V ia ib x y := by
+    intro es x y hes' ⟨d, t, hd, hv, hx, hy⟩
+    subst hx hy
     cases t with
-    | none => simp only [DestIs] at hd; simp [hd, renderDest, destIdx]
+    | none => simp only [DestIs] at hd; subst hd; exact .none
     | some t =>
       cases t with
       | exit =>
         simp only [DestIs] at hd
-        rcases hd with hd | hd <;> simp [hd, renderDest, destIdx, tgtDest]
+        rcases hd with hd | hd <;> subst hd <;> exact .none
       | row t =>
         obtain ⟨m, hm, hdm⟩ := hd
-        have htl : t < rows.length := by
-          have := (Array.getElem?_eq_some_iff.mp hm).1
-          rw [hrel.nsize] at this; exact this
-        have hF : findNode (renderOut out) m.uid = some t :=
-          findNode_unique _ t m.uid (renderNode m) (by simp [renderOut, hon, hm]) rfl hU
-        obtain ⟨ct, hct⟩ : ∃ ct, rows[t]? = some ct := ⟨rows[t], by simp [htl]⟩
-        have hR : findNode r (nodeId t) = some t :=
-          findNode_unique r t (nodeId t) (mkNode t (toRRow ct) (outE.filter (·.src = t))) (by
-            rw [hrn, refNodes_getElem? _ _ hkinds]
-            simp [hct]) (mkNode_uuid _ _ _) hRU
-        simp [hdm, renderDest, destIdx, tgtDest, hF, hR]
-  -- node by node
-  have hFn : (renderOut out).nodes = s.nodes.toList.map renderNode := by simp [renderOut, hon]
-  generalize renderOut out = F at dest_match hU hFn ⊢
-  unfold absFlow
-  apply List.ext_getElem?
-  intro j
-  rw [List.getElem?_map, List.getElem?_map, hrn, refNodes_getElem? _ _ hkinds, hFn]
-  simp only [List.getElem?_map, Array.getElem?_toList]
-  by_cases hj : j < rows.length
-  · obtain ⟨n, c, hn, hcj, hsim⟩ := hrel.node j hj
-    simp only [hn, hcj, Option.map_some]
-    congr 1
-    have hfc := hfr c (List.mem_of_getElem? hcj)
-    have hes : outE.filter (·.src = j) = outOf st j := by rw [hoe]; rfl
-    rw [hes]
-    have hsub : ∀ e ∈ outOf st j, e ∈ outE ∧ e.src = j := by
-      intro e he
-      have := List.mem_filter.mp he
-      exact ⟨by rw [hoe]; exact this.1, by simpa using this.2⟩
+        obtain ⟨e, he, het⟩ := hv t rfl
+        have hnode := htgts e (hes' e he)
+        rw [het] at hnode
+        obtain ⟨rr, hrr, hrk⟩ := hnode
+        simp only [List.getElem?_map] at hrr
+        cases hct : rows[t]? with
+        | none => rw [hct] at hrr; cases hrr
+        | some ct =>
+          rw [hct] at hrr
+          simp only [Option.map_some, Option.some.injEq] at hrr
+          have hnt : isNodeRow ct = true := by rw [← hrr] at hrk; exact hrk
+          obtain ⟨n, hn', _, hposC, _⟩ := hrowC t ct hct hnt
+          rw [hm] at hn'; injection hn' with hn'; subst hn'
+          have hposR := hrowR t ct hct hnt
+          have hF := findNode_unique F _ m.uid (renderNode m) hposC rfl hU
+          have hR := findNode_unique r _ (nodeId t) _ hposR (mkNode_uuid _ _ _) hRU
+          have e1 : destIdx r ((some (Target.row t)).bind tgtDest) = some (some (ia t)) := by
+            simp [destIdx, tgtDest, hR]
+          have e2 : destIdx F (renderDest d) = some (some (ib t)) := by
+            simp [hdm, renderDest, destIdx, hF]
+          rw [e1, e2]
+          exact .node t (by rw [hV]; exact ⟨ct, hct, hnt⟩)
+  have hnok : ∀ (j : Nat) (c : CRow), rows[j]? = some c → isNodeRow c = true → nodeRowOk c = true := by
+    intro j c hcj hn
+    have := hfr c (List.mem_of_getElem? hcj)
+    simp only [rowOk, Bool.or_eq_true] at this
+    rcases this with (h1 | h1) | h1
+    · exact h1
+    · exfalso
+      simp only [exitRow, Bool.and_eq_true, Bool.or_eq_true, decide_eq_true_eq] at h1
+      unfold isNodeRow at hn
+      rcases h1.1 with h2 | h2 <;> rw [h2] at hn
+      · rw [kindOf_hard] at hn; cases hn
+      · rw [kindOf_loose] at hn; cases hn
+    · exfalso
+      simp only [gotoRow, Bool.and_eq_true, decide_eq_true_eq] at h1
+      unfold isNodeRow at hn
+      rw [h1.1, kindOf_goto] at hn; cases hn
+  -- the split
+  have hsplit : SplitOf (absFlow ⟨false, rnf⟩ r) (absFlow ⟨false, rnf⟩ F) V ia ib ir := by
+    constructor
+    intro j hvj
+    rw [hV] at hvj
+    obtain ⟨c, hcj, hn⟩ := hvj
+    have hposR := hrowR j c hcj hn
+    obtain ⟨n, hn', hsim, hposC, hposC'⟩ := hrowC j c hcj hn
+    refine ⟨absNode ⟨false, rnf⟩ r (mkNode j (toRRow c) (outOf st j)), by rw [absFlow_getElem?, hposR]; rfl, ?_⟩
+    generalize hro : M.rOf j = ro at hsim
     cases hsim with
-    | plain hk hp =>
-      -- an action row: all its out-edges are unconditional
-      have hbl : ∀ e ∈ outOf st j, e.cond.blank = true := by
-        intro e he
-        obtain ⟨hm, hsrc⟩ := hsub e he
-        have := hgood.ok e hm
-        simp only [edgeOk, hsrc, hcj, Option.map_some, hk, Bool.or_eq_true] at this
-        rcases this with h1 | h1
-        · exact h1
-        · cases h1
+    | one hsim =>
+      left
+      have hrel1 := node_abs_rel rnf F r M s.nodes j n c (outOf st j) hsim (hnok j c hcj hn) rows hcj
+        (fun e he => ⟨hgood.ok e (hsub j e he).1, (hsub j e he).2⟩) (hI.nodup _ n hn')
+      refine ⟨by rw [hir]; simp [hro], absNode ⟨false, rnf⟩ F (renderNode n), by rw [absFlow_getElem?, hposC]; rfl,
+        hrel1.1, hrel1.2.1, ?_⟩
+      exact hrel1.2.2.imp (fun x y hxy => dr_to_drel _ x y (fun e he => (hsub j e he).1) hxy)
+    | impl i' n' rr hk hp =>
+      right
       have hact : (toRRow c).act = c.row.action := by
-        simp only [rowOk, Bool.or_eq_true] at hfc
-        rcases hfc with h1 | h1
+        have hfc := hnok j c hcj hn
+        simp only [nodeRowOk, Bool.or_eq_true] at hfc
+        rcases hfc with ((h1 | h1) | h1) | h1
         · simp only [plainActionRow, Bool.and_eq_true, decide_eq_true_eq] at h1
           exact h1.2.symm
         · simp only [switchRow, Bool.and_eq_true] at h1
           have := switch_type h1.1.1.1
           rcases kindOf_switch this with h2 | h2 | h2 <;> rw [hk] at h2 <;> cases h2
-      rw [mkNode_plain j (toRRow c) (outOf st j) hk hbl, absNode_plain_ref,
-        absNode_plain_cmp _ _ n c.row.action hp.router hp.acts, hact]
-      congr 2
-      rw [dest_match _ _ hp.dest]
-      cases (outOf st j).getLast? <;> rfl
-    | sw rr hk hp =>
-      have hact : (toRRow c).act = none := by
-        simp only [rowOk, Bool.or_eq_true] at hfc
-        rcases hfc with h1 | h1
-        · simp only [plainActionRow, Bool.and_eq_true, Bool.not_eq_true'] at h1
-          have := kindOf_action h1.1.1.1
-          rcases hk with h2 | h2 | h2 <;> rw [this] at h2 <;> cases h2
-        · simp only [switchRow, Bool.and_eq_true, Option.isNone_iff_eq_none] at h1
-          exact h1.2
-      -- identifiers of the compiled router are pairwise different
-      have hfn := hI.nodup j n hn
-      have hrids : rr.ids.Nodup := by
-        unfold NodeM.fids NodeM.innerIds NodeM.tailIds at hfn
-        rw [hp.router] at hfn
-        exact (List.nodup_append.mp (List.nodup_append.mp hfn).2.1).2.1
-      have hex : (rr.allCats.map (·.exitUid)).Nodup := by
-        unfold SwitchR.ids at hrids; exact (List.nodup_append.mp hrids).1
-      have hcu : (rr.allCats.map (·.uid)).Nodup := by
-        unfold SwitchR.ids at hrids
-        exact (List.nodup_append.mp (List.nodup_append.mp hrids).2.1).1
-      rw [mkNode_switch j (toRRow c) (outOf st j) hk hact, absNode_mkSwitch,
-        absNode_sw rnf _ n rr hp.router hp.acts hcu hex hp.casecat hp.nrSome]
-      -- compare field by field
-      have htests : (rr.cases.map renderCase).map (fun k => (k.type, testArgs k)) =
-          (refTests (toRRow c).kind (outOf st j)).map (fun t =>
-            (t.1, if t.1 = "has_group".toList then t.2.1.drop 1 else t.2.1)) := by
-        have e1 : (rr.cases.map renderCase).map (fun k => (k.type, testArgs k)) =
-            (rr.cases.map (fun k => (k.type, k.args.map (·.getD [])))).map
-              (fun (p : Str × List Str) => (p.1, if p.1 = "has_group".toList then p.2.drop 1 else p.2)) := by
-          rw [List.map_map, List.map_map]
-          exact List.map_congr_left (fun k _ => rfl)
-        rw [e1, hp.cases, List.map_map]
-        unfold refTests
-        rw [List.map_map]
-        exact List.map_congr_left (fun e _ => rfl)
-      have hwait : (renderWait rr).map (fun o => o.map (·.1)) =
-          (refWait (toRRow c) (outOf st j)).map (fun o => o.map (·.1)) := by
-        unfold refWait renderWait
-        rcases hk with h1 | h1
-        · -- a wait row
-          have ht := type_of_wait h1
-          have hw : rr.wait = some (timeoutOf c.row) := by rw [hp.wait]; unfold waitOf; rw [if_pos ht]
-          have hk' : (toRRow c).kind = .wait := h1
-          have hto : (toRRow c).timeout = timeoutOf c.row := rfl
-          rw [if_pos hk', hto, hw]
-          cases hto2 : timeoutOf c.row with
-          | zero => simp
-          | succ m =>
-            have : rr.noResp.isSome = true := hp.nrSome.mpr ⟨m, by rw [hw, hto2]⟩
-            cases hnn : rr.noResp with
-            | none => rw [hnn] at this; cases this
-            | some nr => simp
-        · have ht := type_not_wait h1
-          have hw : rr.wait = none := by rw [hp.wait]; unfold waitOf; rw [if_neg ht]
-          have hk' : ¬ ((toRRow c).kind = .wait) := by
-            show ¬ (kindOf c.row.type = .wait)
-            rcases h1 with h1 | h1 <;> rw [h1] <;> decide
-          rw [if_neg hk', hw]
-          rfl
-      have hdests : rr.allCats.map (fun cat => destIdx F (renderDest cat.dest)) =
-          ((refTests (toRRow c).kind (outOf st j)).map (fun t => destIdx r t.2.2)) ++
-            [destIdx r (lastTgt ((outOf st j).filter (·.cond.blank)) (fun _ => true))] ++
-            (match refWait (toRRow c) (outOf st j) with
-             | some (some (_, td)) => [destIdx r td]
-             | _ => []) := by
-        simp only [SwitchR.allCats, List.map_append, List.map_cons, List.map_nil]
-        congr 1
-        · congr 1
-          · -- the categories of the tests
-            unfold refTests
-            rw [List.map_map]
-            refine forall2_map_eq hp.catd ?_
-            intro cat e hd
-            exact dest_match _ _ hd
-          · -- the default category
-            rw [dest_match _ _ hp.dflt, lastTgt_eq, List.filter_true]
-        · -- the timeout category
-          unfold refWait
-          rcases hk with h1 | h1
-          · have ht := type_of_wait h1
-            have hw : rr.wait = some (timeoutOf c.row) := by rw [hp.wait]; unfold waitOf; rw [if_pos ht]
-            have hk' : (toRRow c).kind = .wait := h1
-            have hto : (toRRow c).timeout = timeoutOf c.row := rfl
-            rw [if_pos hk', hto]
-            cases hto2 : timeoutOf c.row with
-            | zero =>
-              have : rr.noResp = none := by
-                cases hnn : rr.noResp with
-                | none => rfl
-                | some nr =>
-                  obtain ⟨m, hm⟩ := hp.nrSome.mp (by simp [hnn])
-                  rw [hw, hto2] at hm; cases hm
-              simp [this]
-            | succ m =>
-              have : rr.noResp.isSome = true := hp.nrSome.mpr ⟨m, by rw [hw, hto2]⟩
-              cases hnn : rr.noResp with
-              | none => rw [hnn] at this; cases this
-              | some nr =>
-                simp only [Option.toList, List.map_cons, List.map_nil, Nat.succ_ne_zero, if_false]
-                rw [dest_match _ _ (hp.nr nr hnn), lastTgt_eq]
-          · have ht := type_not_wait h1
-            have hw : rr.wait = none := by rw [hp.wait]; unfold waitOf; rw [if_neg ht]
-            have hk' : ¬ ((toRRow c).kind = .wait) := by
-              show ¬ (kindOf c.row.type = .wait)
-              rcases h1 with h1 | h1 <;> rw [h1] <;> decide
-            rw [if_neg hk']
-            have : rr.noResp = none := by
-              cases hnn : rr.noResp with
-              | none => rfl
-              | some nr =>
-                obtain ⟨m, hm⟩ := hp.nrSome.mp (by simp [hnn])
-                rw [hw] at hm; cases hm
-            simp [this]
-      have hop : rr.operand = (toRRow c).operand := hp.operand
-      have hrn' : rr.resultName = some (toRRow c).saveName := hp.rname
-      rw [htests, hwait, hdests, hop, hrn']
-      rfl
-  · have h1 : (rows.map toRRow)[j]? = none := by simp; omega
-    have h2 : s.nodes[j]? = none := by
-      rw [Array.getElem?_eq_none_iff]; rw [hrel.nsize]; omega
-    simp [h1, h2]; omega
+        · simp only [fixedRow, Bool.and_eq_true] at h1
+          have := fixed_type h1.1.1.1
+          rcases kindOf_fixed this with h2 | h2 | h2 <;> rw [hk] at h2 <;> cases h2
+        · simp only [randomRow, Bool.and_eq_true, decide_eq_true_eq] at h1
+          have h2 := kindOf_random; rw [← h1.1.1.1, hk] at h2; cases h2
+      have hv : ∀ e ∈ (outOf st j).filter (fun e => !e.cond.blank), e.cond.var = implVar (outOf st j) := by
+        intro e he
+        have := hgood.var j c hcj hk e (by rw [hes]; exact he)
+        rw [hes] at this; exact this
+      obtain ⟨h1, h2, h3, h4, h5⟩ := impl_abs rnf F r M s.nodes j n c (outOf st j) i' n' rr hk hp hact hv
+        (hI.nodup _ n' hp.rnode)
+      have hposC2 := hposC' i' n' hro hp.rnode
+      have hF' := findNode_unique F _ n'.uid (renderNode n') hposC2 rfl hU
+      refine ⟨ib j + 1, absNode ⟨false, rnf⟩ F (renderNode n), absNode ⟨false, rnf⟩ F (renderNode n'),
+        by rw [hir]; simp [hro], h1, by rw [absFlow_getElem?, hposC]; rfl, by rw [h2], by rw [h2], ?_,
+        by rw [absFlow_getElem?, hposC2]; rfl, h3, h4, ?_⟩
+      · rw [h2]; simp [destIdx, hF']
+      · exact h5.imp (fun x y hxy => dr_to_drel _ x y (fun e he => (hsub j e he).1) hxy)
+  -- where the two flows start
+  have hstart : (absFlow ⟨false, rnf⟩ r = [] ∧ absFlow ⟨false, rnf⟩ F = []) ∨
+      (absFlow ⟨false, rnf⟩ r ≠ [] ∧ absFlow ⟨false, rnf⟩ F ≠ [] ∧ ∃ j0, V j0 ∧ ia j0 = 0 ∧ ib j0 = 0) := by
+    have hnotV : ∀ j, ¬ V j → fR j = none ∧ gC j = [] := by
+      intro j hj
+      rw [hV] at hj
+      rw [hfR, hgC]
+      cases hcj : rows[j]? with
+      | none => simp [nodeIdxs, hcj]
+      | some c =>
+        have : isNodeRow c = false := by
+          cases hh : isNodeRow c
+          · rfl
+          · exact absurd ⟨c, hcj, hh⟩ hj
+        simp [nodeIdxs, hcj, this]
+    by_cases hex : ∃ j, V j
+    · right
+      -- the first node-producing row
+      obtain ⟨j0, hj0, hmin⟩ : ∃ j0, V j0 ∧ ∀ j, j < j0 → ¬ V j := by
+        obtain ⟨j, hj⟩ := hex
+        induction j using Nat.strong_induction_on with
+        | _ j ih =>
+          by_cases hm : ∃ j', j' < j ∧ V j'
+          · obtain ⟨j', hlt, hj'⟩ := hm
+            exact ih j' hlt hj'
+          · exact ⟨j, hj, fun j' hlt hj' => hm ⟨j', hlt, hj'⟩⟩
+      have hia0 : ia j0 = 0 := by
+        rw [hia]
+        simp only
+        rw [filterMap_nil_of]; rfl
+        intro x hx
+        have : x < j0 := by
+          have := List.mem_take_iff_getElem.mp hx
+          obtain ⟨i, hi, rfl⟩ := this
+          simp at hi ⊢; omega
+        exact (hnotV x (hmin x this)).1
+      have hib0 : ib j0 = 0 := by
+        rw [hib]
+        simp only
+        rw [flatMap_nil_of]; rfl
+        intro x hx
+        have : x < j0 := by
+          have := List.mem_take_iff_getElem.mp hx
+          obtain ⟨i, hi, rfl⟩ := this
+          simp at hi ⊢; omega
+        exact (hnotV x (hmin x this)).2
+      have hj0' := hj0
+      rw [hV] at hj0'
+      obtain ⟨c, hcj, hn⟩ := hj0'
+      have hposR := hrowR j0 c hcj hn
+      obtain ⟨n, _, _, hposC, _⟩ := hrowC j0 c hcj hn
+      refine ⟨?_, ?_, j0, hj0, hia0, hib0⟩
+      · intro h0
+        have := absFlow_getElem? ⟨false, rnf⟩ r (ia j0)
+        rw [h0, hposR] at this; simp at this
+      · intro h0
+        have := absFlow_getElem? ⟨false, rnf⟩ F (ib j0)
+        rw [h0, hposC] at this; simp at this
+    · left
+      have hall : ∀ j, ¬ V j := fun j hj => hex ⟨j, hj⟩
+      constructor
+      · unfold absFlow
+        rw [hrn2, filterMap_nil_of _ _ (fun x _ => (hnotV x (hall x)).1)]; rfl
+      · unfold absFlow
+        rw [hFn, flatMap_nil_of _ _ (fun x _ => (hnotV x (hall x)).2)]; rfl
+  exact trace_eq_of_split ⟨false, rnf⟩ r F V ia ib ir hsplit hstart env len
 
 end Rpft.CoreSheet
